@@ -46,6 +46,7 @@ type FuncContract struct {
 	Where      string
 	Lets       [][2]string // name, expr: ghost abbreviations usable in clauses (evaluated at entry)
 	Sweep      bool        // zero-annotation entry of a no-panic sweep: only the receiver is assumed non-nil
+	NoAutoFrame bool       // do not generate the automatic "objects that existed before the loop keep their content" loop invariants
 	Expose     bool        // element reads below existential quantifiers are also stated outside them (helps E-matching on goals)
 	GhostMaps  []string    // assumed contracts only: existentially chosen Int->Int maps, fresh at every call (e.g. the permutation of a sort)
 	Uses       map[string]map[string]bool // callee short name -> the only postconditions of it that are assumed at its call sites here
@@ -83,7 +84,7 @@ type sweepEntry struct {
 }
 
 var clauseKW = map[string]bool{"props": true, "requires": true, "ensures": true, "modifies": true, "loop": true, "emits": true,
-	"pure": true, "noeffect": true, "trusted": true, "params": true, "let": true, "ghostmap": true, "expose": true, "internal": true, "nosafety": true, "cutloops": true, "uses": true}
+	"pure": true, "noeffect": true, "trusted": true, "params": true, "let": true, "ghostmap": true, "expose": true, "noautoframe": true, "internal": true, "nosafety": true, "cutloops": true, "uses": true}
 
 var topKW = map[string]bool{"sweep": true, "func": true, "iface": true, "extern": true, "pred": true, "spec": true, "axiom": true, "lemma": true, "event": true}
 
@@ -296,6 +297,8 @@ func (db *ContractDB) parseFile(file, pkgPath string) error {
 					fc.Params = strings.Fields(strings.ReplaceAll(crest, ",", " "))
 				case "expose":
 					fc.Expose = true
+				case "noautoframe":
+					fc.NoAutoFrame = true
 				case "ghostmap":
 					if fc.Kind == "func" && fc.Trusted == "" {
 						return fmt.Errorf("%s: ghostmap is only allowed in assumed contracts (extern, iface, trusted)", cwhere)
